@@ -8,7 +8,7 @@ def nontrivial(pio):
     """some transition released >= 2 waiters at once, or released one while others stayed blocked"""
     for r in pio:
         if r.get("kind") == "r" and "released" in r and r["released"]:
-            still = sum(len(q) for w in r["words"] for q in w["q"])
+            still = sum(len(q) for w in r["words"].values() for q in w["q"])
             if len(r["released"]) >= 2 or still:
                 return True
     return False
